@@ -489,7 +489,9 @@ META = {
     "command list is written only by the known resolvers and neither they nor the stage constructors apply a "
     "splitting/globbing/expanding callee to it; alias and binary receive the same self.cmd; through Aliases.get/eval_alias the user's arguments flow by "
     "copying only (list/+/display/slice/extend, the alias invocation, the recursion's acc_args), every list result "
-    "carries them, behind the alias's own words. Literal values "
+    "carries them, behind the alias's own words; tools.expandvars is one positional pass over the references of the original "
+    "text (no content search of the partly expanded string, span splice, running offset advanced by the length "
+    "change, or back-to-front iteration). Literal values "
     "themselves (tokenizer regexes, literal_eval) are not decided.",
     "note": "Decides the listed structural clauses, not the behaviour. The grammar is read by importing "
     "xonsh.parsers from the analysed tree in a helper subprocess (static initialisers only; nothing is parsed).",
